@@ -162,6 +162,17 @@ RD_CRYSTALS_MORE = [
     ("tric", [[2, 0, 0], [0, 2, 0], [0, 0, 2]], None), ("tric", [[5, 0, 0], [0, 1, 0], [0, 0, 1]], None),
     ("tric", [[1, 0, 1], [0, 3, 0], [-1, 0, 1]], None), ("tetab", [[3, 0, 0], [0, 2, 0], [0, 0, 1]], None),
 ]
+# dynamically unstable crystals (spec/C19Unstable.tla): negative eigenvalues at self-conjugate and at conjugate-pair
+# points; run_d2f must return the original force constants; sampling uses |omega| as the code documents
+RD_CRYSTALS_UNSTABLE = [
+    ("usc", D2, None), ("usc", [[2, 1, 0], [0, 2, 0], [0, 0, 1]], None),
+    ("ucscl", [[3, 0, 0], [0, 1, 0], [0, 0, 2]], None),
+    ("utric", [[3, 0, 0], [0, 1, 0], [0, 0, 1]], None), ("utric", [[1, 1, 0], [-1, 2, 0], [0, 0, 2]], None),
+]
+RD_CRYSTALS_UNSTABLE_MORE = [
+    ("usc", [[3, 0, 0], [0, 3, 0], [0, 0, 1]], None), ("usc", [[4, 0, 0], [0, 1, 0], [0, 0, 1]], None),
+    ("ucscl", [[2, 0, 0], [0, 2, 0], [0, 0, 1]], None), ("utric", [[2, 1, 0], [0, 1, 0], [0, 0, 2]], None),
+]
 TEMPS = [0.0, 1.0, 50.0, 300.0, 2000.0]
 STATS = ["quantum", "classical"]
 CUTKINDS = ["default", "gap1", "gap3", "zero"]
@@ -334,6 +345,8 @@ def rd_event(ctx, orc, entry, S, cent, T, stat, cutkind, scale):
         ev["num"] = dict(cov=units(e_cov), lin=units(e_lin), uu=units(e_uu), uuinv=units(e_uuinv), d2f=units(e_d2f),
                          api=units(e_api), rank=abs(rank - ex["nkeep"]), freq=units(e_freq), nint=abs(nint - ex["nkeep"]))
         ev["status"] = "built"
+        neg = lambda x: int((np.asarray(x) < -1e-6 * max(np.abs(lam).max(), 1e-300)).sum()) if len(x) else 0  # noqa: E731
+        info.update(imaginary_ii=neg(rd._eigvals_ii), imaginary_ij=neg(rd._eigvals_ij))
         info.update(N=N, n_ii=nii, n_ij=nij, dof=ev["dof"], rank=rank,
                     err=dict(cov=e_cov, lin=e_lin, uu=e_uu, uuinv=e_uuinv, d2f=e_d2f, api=e_api, freq=e_freq))
     except tlcmod.MachineryError:
@@ -355,6 +368,11 @@ def rd_cases(ctx, dry=False):
         chosen = [combos[(start + 11 * j) % len(combos)] for j in range(k)]
         for (T, st, ck) in chosen:
             cases.append((entry, S, cent, T, st, ck, 1.0))
+    for ci, (entry, S, cent) in enumerate(RD_CRYSTALS_UNSTABLE + ([] if ctx.quick else RD_CRYSTALS_UNSTABLE_MORE)):
+        start = (3 * ci + 5 * ctx.seed) % len(combos)
+        for j in range(2 if ctx.quick else 4):
+            T, st, ck = combos[(start + 13 * j) % len(combos)]
+            cases.append((entry, S, cent, T, st, ck, 1.0))
     # soft crystals: frequencies of a few 0.01-0.1 THz, occupation numbers of order one at a few K
     for entry, S, cent in ([("cscl", [[2, 0, 0], [0, 2, 0], [0, 0, 1]], None), ("tric", [[3, 0, 0], [0, 1, 0], [0, 0, 1]], None)]):
         for (T, st, ck) in [(1.0, "quantum", "gap1"), (0.0, "quantum", "zero"), (50.0, "classical", "default")]:
@@ -370,22 +388,34 @@ def build_oracles(ctx):
         by_entry.setdefault(entry, [])
         if S not in by_entry[entry]:
             by_entry[entry].append(S)
-    return {e: Oracle(e, sorted(mats), seed=ctx.seed + 3, ctx=ctx) for e, mats in sorted(by_entry.items())}
+    from harness import c19_unstable
+    return {e: (c19_unstable.UnstableOracle if e in c19_unstable.NAMES else Oracle)(e, sorted(mats), seed=ctx.seed + 3, ctx=ctx)
+            for e, mats in sorted(by_entry.items())}
 
 
 def run_rd(ctx, oracles):
     cases = rd_cases(ctx)
     events = []
     worst = {}
+    unstable = dict(events=0, imaginary_ii=0, imaginary_ij=0)
     for (entry, S, cent, T, st, ck, scale) in cases:
         ev, info = rd_event(ctx, oracles[entry], entry, S, cent, T, st, ck, scale)
         events.append(ev)
         ctx.count(("rd", entry, str(S), str(cent), T, st, ck, scale))
         for k, v in info.get("err", {}).items():
             worst[k] = max(worst.get(k, 0.0), v)
+        if info.get("imaginary_ii", 0) + info.get("imaginary_ij", 0) > 0:
+            unstable["events"] += 1
+            unstable["imaginary_ii"] += info["imaginary_ii"]
+            unstable["imaginary_ij"] += info["imaginary_ij"]
+            if unstable["events"] == 1:
+                ctx.sample(info, cap=9)
         if len(events) in (1, 8):
             ctx.sample(info)
     ctx.extra["rd_events"] = len(events)
+    ctx.extra["rd_unstable"] = unstable
+    if not (unstable["events"] and unstable["imaginary_ii"] and unstable["imaginary_ij"]):
+        raise tlcmod.MachineryError("no imaginary modes at self-conjugate / conjugate-pair points: %s" % unstable)
     ctx.extra["rd_worst_relative_deviation"] = worst
     ctx.extra["rd_tolerance"] = TOL * 1e-12
     structures = sorted(set((len(e["ii"]), len(e["ij"])) for e in events))
@@ -950,6 +980,8 @@ INVARIANT InvCollect
 INVARIANT InvOrthonormal
 INVARIANT InvModeCount
 INVARIANT InvCanonicalCovariance
+INVARIANT InvD2FIdentity
+INVARIANT InvSomeImaginary
 INVARIANT InvRows
 INVARIANT InvTrace
 """
@@ -1010,6 +1042,8 @@ def self_check_specs(ctx):
          {"InvCanonicalCovariance", "InvOrthonormal"}),
         ("re-only", "MC_RandomDispCov", CFG_COV, {"MC_RandomDispCov.tla": mc, "RandomDispCov.tla": cv.replace(
             'IF m.kind = "im" THEN -z[2] ELSE z[1]', 'z[1]')}, {"InvCanonicalCovariance"}),
+        ("abs-eigenvalue", "MC_RandomDispCov", CFG_COV, {"MC_RandomDispCov.tla": mc, "RandomDispCov.tla": cv.replace(
+            "EigWeight(w) == w", "EigWeight(w) == Abs(w)")}, {"InvD2FIdentity"}),
         ("pairs-as-self", "MC_RandomDispCov", CFG_COV, {"MC_RandomDispCov.tla": mc, "RandomDisp.tla": rd.replace(
             'js == {j \\in 1..Len(P) : ModV(VAdd(P[i], P[j]), n) = Zero3}', 'js == {j \\in 1..Len(P) : ModV(VSub(P[i], P[j]), n) = Zero3}')},
          {"InvPartition"}),
@@ -1381,6 +1415,8 @@ def run(ctx):
         "cell geometry (positions, lattices, supercell-to-primitive classes) of the real Supercell/Primitive objects is "
         "trusted here (subject of C04); dynamical matrices of the real code are not used: the harness rebuilds D(q) from "
         "the oracle's force constants with minimum-image averaging",
-        "spring-model crystals are dynamically stable: imaginary modes and max_distance clipping are out of scope",
+        "unstable spring-model crystals (spec/C19Unstable.tla) are in scope for the run_d2f identity, the spectrum and the "
+        "sampling structure; for them the covariance clauses are judged with |omega| as the code documents; "
+        "thermal displacements use stable crystals only; max_distance clipping is out of scope",
         "mean-square displacement samples are closed under q -> -q (Gamma-centred or half-shifted meshes)",
     ]
